@@ -770,7 +770,8 @@ def r4_crash_window(ctx):
             if isinstance(n, ast.Subscript) and isinstance(n.ctx, ast.Load) \
                     and const_str(n.slice):
                 base = norm(n.value)
-                if bases is not None and base not in bases:
+                if bases is not None and base not in bases and \
+                        "analysis" not in base:
                     continue
                 if base.endswith("attrs") and "dset" not in base and \
                         "meas" not in base:
